@@ -131,6 +131,29 @@ def gen_cond_positions(conds=INT_CONDS):
     return out
 
 
+VALUE_CALLS = ["clz32(%s)", "clz64(%s)", "clo32(%s)", "clo64(%s)", "revbit16(%s)", "revbit32(%s)", "revbit64(%s)", "fbrev(%s)", "conv_round(%s, 2)", "conv_round(5, %s)", "bswap16(%s)", "bswap32(%s)", "bswap64(%s)",
+               "extract64(%s, 0, 8)", "extract64(RttV, %s, 4)", "sextract64(%s, 4, 4)", "deposit64(%s, 0, 8, RttV)", "deposit32(RtV, 0, 8, %s)", "extract32(%s, 8, 8)", "mem_load_u8(%s)", "mem_load_s32(%s)", "get_usr_field(bundle, HEX_REG_FIELD_USR_OVF) + %s"]
+VOID_CALLS = ["set_usr_field(bundle, HEX_REG_FIELD_USR_OVF, %s)", "set_usr_field(bundle, HEX_REG_FIELD_USR_LPCFG, %s)", "trap(%s, 1)", "trap(0, %s)", "mem_store_u8(%s, RtV)", "mem_store_u32(RtV, %s)", "JUMP(%s)"]
+CALL_ARGS = ["RsV", "a", "c", "(RsV + 1)", "(RsV & 0xff)", "clz32(RsV)", "5", "((int8_t)RsV)", "RssV", "a++", "(a < c)", "(c ? a : 1)", "mem_load_u8(RsV)", "siV", "PuV", "-a"]
+
+
+def gen_calls(args=CALL_ARGS):
+    """Every callable with every kind of argument expression in every statement context."""
+    out = []
+    d = [("int32_t", "a", "input"), ("uint8_t", "c", "input"), ("int64_t", "r", "local")]
+    for x in args:
+        for f in VOID_CALLS:
+            e = f % x
+            for kind, st in [("stmt", "%s;" % e), ("stmt-after", "RdV = RsV; %s;" % e), ("stmt-before", "%s; RdV = RsV;" % e), ("twice", "%s; %s;" % (e, e)), ("if", "if (a) { %s; }" % e), ("else", "if (a) { r = 1; } else { %s; }" % e),
+                             ("for", "for (i = 0; i < 2; i++) { %s; }" % e), ("gcc", "r = ({ %s; 3; });" % e)]:
+                out.append(P(d, st, ("vcall", f, x, kind)))
+        for f in VALUE_CALLS:
+            e = f % x
+            for kind, st in [("rhs", "r = %s;" % e), ("unused", "%s;" % e), ("unused-after", "RdV = RsV; %s;" % e), ("sum", "r = %s + %s;" % (e, e)), ("if", "if (%s) { r = 1; }" % e), ("regw", "RdV = %s;" % e), ("for", "for (i = 0; i < 2; i++) { r += %s; }" % e)]:
+                out.append(P(d, st, ("call", f, x, kind)))
+    return out
+
+
 OPERANDS = [("a", [("int32_t", "a", "input")]), ("c", [("uint8_t", "c", "input")]), ("RsV", []), ("RssV", []), ("PuV", []), ("siV", []), ("5", []), ("0x1234LL", []), ("HEX_REG_ALIAS_LR", []), ("PuN", []), ("RxV", []), ("MuV", [])]
 
 
@@ -216,6 +239,7 @@ def static_space(tier):
     specs += gen_reuse() + gen_folding() + gen_control() + gen_rw_operands()
     specs += gen_bool_positions(BOOL_EXPRS[:4] if tier == "quick" else BOOL_EXPRS)
     specs += gen_cond_positions()
+    specs += gen_calls(CALL_ARGS[:8] if tier == "quick" else CALL_ARGS)
     specs += c06.space("quick")
     if tier == "thorough":
         specs += c03.space("quick") + c05.space("quick") + c06.space("thorough")
@@ -224,8 +248,20 @@ def static_space(tier):
     for s in specs:
         if s.text not in seen:
             seen.add(s.text)
+            if not letters_consistent(s.text):
+                # one operand letter names one register of an instruction: a text which uses a letter for two
+                # classes or widths (RsV next to RssV) is not a behaviour any instruction can have
+                raise core.HarnessError("generated program uses one operand letter for two registers: %s" % s.text)
             out.append(s)
     return out
+
+
+def letters_consistent(text):
+    by = {}
+    for o in drive.scan_operands(text).values():
+        if o.kind == "reg":
+            by.setdefault(o.letter, set()).add((o.cls, o.pair))
+    return all(len(v) == 1 for v in by.values())
 
 
 # ---- known static findings: (finding id, property column, message regex, source predicate)
@@ -236,17 +272,68 @@ def has_const_cond(src):
     return CONST_COND.search(src) is not None
 
 
+PURE_CALLS = {"extract64", "sextract64", "extract32", "deposit64", "deposit32", "bswap16", "bswap32", "bswap64", "REGFIELD", "fUNFLOAT", "fUNDOUBLE", "IS_INF"}
+
+
+def _has_effect(e):
+    """Is the value of the whole expression produced by something the compiler turns into an effect
+    (assignment, ++/--, statement-expression, a call that is not a pure macro or a load)?  Only the
+    outermost operator counts: in `extract64(RttV, clz32(RsV), 4);` the inner call has its own effect,
+    the outer pure is dropped and its other operands are left over."""
+    from vf import cparse
+
+    n = cparse.strip_paren(e)
+    if n[0] in ("assign", "post", "pre", "stmtexpr"):
+        return True
+    if n[0] == "call":
+        f = cparse.strip_paren(n[1])
+        return not (f[0] == "id" and (f[1] in PURE_CALLS or f[1].startswith("mem_load_")))
+    return False
+
+
+def unused_pure_statement_ids(src):
+    """Identifiers used in expression statements whose value is unused and which have no side effect
+    (`RsV + 1;`, `extract64(RsV, 0, 8);`); None if there is no such statement."""
+    from vf import cparse
+    from vf.deviations import walk
+
+    try:
+        ast = cparse.parse_behaviour(src)
+    except cparse.CSyntaxError:
+        return None
+    ids = None
+    for n in walk(ast):
+        if isinstance(n, tuple) and len(n) == 2 and n[0] == "expr" and isinstance(n[1], tuple) and not _has_effect(n[1]):
+            ids = ids or set()
+            for m in walk(n[1]):
+                if isinstance(m, tuple) and len(m) == 2 and m[0] == "id":
+                    ids.add(m[1])
+    return ids
+
+
+def unused_pure_statement_leak(src, msg=""):
+    ids = unused_pure_statement_ids(src)
+    if ids is None:
+        return False
+    m = re.search(r"pure (\w+) is initialised", msg)
+    if m and re.match(r"^[A-Z][a-z]{1,2}$", m.group(1)):
+        # a register / immediate pure: it has to be an operand of such a statement
+        return any(i in (m.group(1) + "V", m.group(1) + "N", m.group(1)) for i in ids)
+    return True
+
+
 STATIC_FINDINGS = [
     ("KF-const-cond-dead-arm", "sorts", r"identifier \w+ does not hold a pure|local \w+ is read but no path ever sets it", has_const_cond),
     ("KF-const-cond-dead-arm", "wellformed", r"identifier '\w+' is not declared before use", has_const_cond),
     ("KF-rw-operand-read-leak", "linearity", r"pure [A-Z][yz]{1,2}\w* is initialised but never used", lambda src: re.search(r"\b[A-Z][yz]{1,2}V\s*=[^=]", src) is not None),
     ("KF-const-cond-dead-arm", "linearity", r"is initialised but never used \(leak\)|is consumed 2 times without DUP", has_const_cond),
+    ("KF-unused-value-statement-leak", "linearity", r"pure \w+ is initialised but never used \(leak\)", unused_pure_statement_leak),
 ]
 
 
 def attribute(col, msg, src):
     for fid, c, rx, pred in STATIC_FINDINGS:
-        if c == col and re.search(rx, msg) and pred(src):
+        if c == col and re.search(rx, msg) and (pred(src, msg) if pred is unused_pure_statement_leak else pred(src)):
             return fid
     return None
 
